@@ -50,7 +50,17 @@ def gen(rng, tier, idx):
         p.op(0, "proc_init", 1, rtgen.LOOM, rtgen.PID)
         for t in range(1, nth):
             p.op(t, "wait", 0, 1)
-    for t in range(nth):
+    # staggered lifetimes: some threads only start after another one has been freed
+    late_after = {}
+    if kind == "iso" and nth >= 3 and r.chance(40):
+        early = r.choice([0, 1])
+        for t in range(nth):
+            if t != early and t != 0 and r.chance(80):
+                late_after[t] = early
+    order = sorted(range(nth), key=lambda t: (t in late_after, t))
+    for t in order:
+        if t in late_after:
+            p.op(t, "wait", late_after[t], len(p.ops[late_after[t]]))
         p.op(t, "thread_init", tids[t])
         seq = 0
         for _ in range(r.choice([2, 8, 25])):
@@ -111,7 +121,7 @@ def gen(rng, tier, idx):
         for o in range(1, nth):
             p.op(0, "wait", o, len(p.ops[o]))
         p.op(0, "proc_fini")
-    return {"kind": kind, "variant": variant, "plan": p.to_case(), "tids": tids, "racers": racers,
+    return {"kind": kind, "variant": variant, "plan": p.to_case(), "tids": tids, "racers": racers, "staggered": bool(late_after),
             "exp": {str(k): {"cpus": v["cpus"], "rank": v["rank"], "attrs": v["attrs"],
                              "marks": {str(a): b for a, b in v["marks"].items()}, "require": v["require"]} for k, v in exp.items()},
             "tsan": r.chance(34)}
@@ -208,7 +218,7 @@ def run(case, ctx):
         info = {"sim_ns": (h.allclocks[-1][2] - 10 ** 9) if h.allclocks else 0, "size": sum(len(t) for t in plan.ops),
                 "ihash": ihash([case["plan"]["ops"], h.sched]), "nontrivial": switches >= 5,
                 "faults": {"strategy:%s" % {0: "random", 1: "serial", 2: "round-robin", 3: "pct"}[plan.knobs["strategy"]]: 1,
-                           "scenario:" + kind: 1},
+                           "scenario:" + kind: 1, "staggered thread lifetimes": 1 if case.get("staggered") else 0},
                 "probes": {"context switches": switches, "yield points": h.nyields},
                 "states": ["%s/%s" % (kind, h.end)],
                 "sample": {"kind": kind, "threads": len(plan.ops), "strategy": plan.knobs["strategy"], "schedule_head": h.sched[:60],
